@@ -28,10 +28,20 @@ type vEntry struct {
 	yaml  []byte // non-nil: NewRetrievedFromYAML(yaml) (what env/file/yaml providers do)
 	raw   any    // otherwise NewRetrieved(raw)
 	isRaw bool
+	// own: the provider hands out the SAME object on every Retrieve (Retrieved.AsRaw passes it on without a copy); `raw` is the
+	// pristine twin it is compared with after Resolve — the resolver must not write into provider-owned data
+	own    bool
+	shared any
 }
 
 func (e *vEntry) retrieve() (*Retrieved, error) {
 	if e.isRaw {
+		if e.own {
+			if e.shared == nil {
+				e.shared = vClone(e.raw)
+			}
+			return NewRetrieved(e.shared)
+		}
 		return NewRetrieved(vClone(e.raw))
 	}
 	return NewRetrievedFromYAML(e.yaml)
@@ -584,6 +594,11 @@ func (c *vCase) run(out *vOut, idx int) (stuck bool) {
 	calls := &vCalls{budget: int64(vEnvInt("VERIF_C12_CALL_BUDGET", 400000))}
 	factories := []ProviderFactory{}
 	for _, s := range vSchemes {
+		for _, e := range c.provs[s] {
+			if e.isRaw {
+				e.own, e.shared = true, nil // the reference providers own their values: one object, handed out again and again
+			}
+		}
 		p := &vProv{scheme: s, tab: c.provs[s], calls: calls, record: true}
 		factories = append(factories, NewProviderFactory(func(ProviderSettings) Provider { return p }))
 	}
@@ -647,6 +662,24 @@ func (c *vCase) run(out *vOut, idx int) (stuck bool) {
 		case <-done:
 		case <-time.After(vEnvMillis("VERIF_C12_GRACE_MS", 5000)):
 			stuck = true
+		}
+	}
+	// direct oracle: whatever happened, the values the providers own are as they were (deep comparison with the pristine twin)
+	if !timedOut {
+		for _, sc := range vSchemes {
+			names := make([]string, 0, len(c.provs[sc]))
+			for n := range c.provs[sc] {
+				names = append(names, n)
+			}
+			sort.Strings(names)
+			for _, n := range names {
+				if e := c.provs[sc][n]; e.own && e.shared != nil {
+					out.Linef("stat provider_owned_checked 1")
+					if vEnc(e.shared) != vEnc(e.raw) {
+						out.Linef("viol sig=C12/provider/provider-owned-value-mutated ref=%s:%s was=%s now=%s", vHexS(sc), vHexS(n), vEnc(e.raw), vEnc(e.shared))
+					}
+				}
+			}
 		}
 	}
 	ncalls := calls.n.Load()
@@ -1523,6 +1556,20 @@ func vCorpus() []*vCase {
 		c.appendGate = true
 		c.srcs = srcs
 	}
+	// 52: a provider that OWNS its value (one map object, handed out on every Retrieve) referenced twice: the resolver must not
+	// write expanded / un-escaped elements back into it
+	c52 := mk("corpus", "", nil, func(c *vCase) {
+		c.setRaw("env", "OWN", map[string]any{"k": "${env:X}", "l": []any{"${env:X}", "$$x", map[string]any{"d": "${env:X}"}}, "e": "a$$b"})
+	})
+	c52.srcs = []any{map[string]any{"a": "${env:OWN}", "b": "${env:OWN}", "c": []any{"${env:OWN}"}}}
+	// 53: an included document whose text starts with a comment holding an unresolvable reference (expanding the ORIGINAL fails, the
+	// error is swallowed) while its parsed value still needs two more rounds: the `changed` of the value must survive
+	c53 := mk("corpus", "", nil, func(c *vCase) {
+		c.setYAML("env", "DOC", "# see ${nosuch:thing}\na: ${env:L1}\nb: [1, '${env:L1}']\n")
+		c.setYAML("env", "L1", "${env:L2}")
+		c.setYAML("env", "L2", "deep")
+	})
+	c53.srcs = []any{map[string]any{"inc": "${env:DOC}", "z": "${env:L1}"}}
 	return cs
 }
 
